@@ -40,6 +40,8 @@ type Expr struct {
 	T    *Tmpl   `json:"t,omitempty"`
 	Arr  []*Expr `json:"arr,omitempty"`
 	Sp   string  `json:"sp,omitempty"` // whitespace around the operator / '='
+	// dict: {'Keys[i]': Arr[i], …}; dset: Name.Op = R (in place, through every name of the dict object)
+	Keys []string `json:"keys,omitempty"`
 }
 
 // FnDef is a function definition statement: func Name(Params) { return-less Body }; the body is an int
@@ -90,6 +92,8 @@ type Tmpl struct {
 var intVars = []string{"n1", "n2", "i1", "j2", "$n", "_n", "力量"}
 var strVars = []string{"s1", "s2", "t1", "u_x", "$s", "名字"}
 var arrVars = []string{"v1", "w2", "数组"}
+var dictVars = []string{"m1", "m2"} // dicts of ints (references, like arrays)
+var dictKeys = []string{"a", "b", "c"}
 var ctrVars = []string{"k1", "k2"} // loop counters: never assigned by generated statements
 var fnNames = []string{"f1", "f2", "函数"}
 var fnParams = []string{"p1", "p2", "p3"}
@@ -115,6 +119,11 @@ func varType(name string) byte {
 			return 'i'
 		}
 	}
+	for _, n := range dictVars {
+		if n == name {
+			return 'd'
+		}
+	}
 	if strings.HasPrefix(name, "g") || name == "r" { // depth section: g<k> are strings, wrapper result r
 		return 's'
 	}
@@ -136,7 +145,7 @@ const (
 
 func prec(e *Expr) int {
 	switch e.K {
-	case "asg":
+	case "asg", "dset":
 		return precAsg
 	case "cmp":
 		return precCmp
@@ -207,6 +216,19 @@ func (p *printer) expr(e *Expr, min int) {
 		p.w("(" + e.Sp)
 		p.expr(e.L, 0)
 		p.w(")")
+	case "dict":
+		p.w("{")
+		for i, k := range e.Keys {
+			if i > 0 {
+				p.w("," + e.Sp)
+			}
+			p.w("'" + k + "':" + e.Sp)
+			p.expr(e.Arr[i], precCmp)
+		}
+		p.w("}")
+	case "dset":
+		p.w(e.Name + "." + e.Op + e.Sp + "=" + e.Sp)
+		p.expr(e.R, precAsg)
 	case "push":
 		p.w(e.Name + ".push(")
 		p.expr(e.R, precCmp)
@@ -434,6 +456,7 @@ type Val struct {
 	I int64
 	S string
 	A []int64
+	D map[string]int64 // 'd' dict of ints
 	// id: which array object this is (arrays are references: v1 = w2 makes both names one array, a push through either
 	// is seen through both); 0 for a value that is not an array object of the evaluator
 	id int
@@ -445,6 +468,22 @@ func (v Val) String() string {
 		return strconv.FormatInt(v.I, 10)
 	case 's':
 		return v.S
+	case 'd':
+		keys := make([]string, 0, len(v.D))
+		for k := range v.D {
+			keys = append(keys, k)
+		}
+		sort.Strings(keys)
+		var sb strings.Builder
+		sb.WriteString("{")
+		for i, k := range keys {
+			if i > 0 {
+				sb.WriteString(", ")
+			}
+			sb.WriteString("'" + k + "': " + strconv.FormatInt(v.D[k], 10))
+		}
+		sb.WriteString("}")
+		return sb.String()
 	case 'a':
 		var sb strings.Builder
 		sb.WriteString("[")
@@ -469,6 +508,16 @@ func (v Val) equal(w Val) bool {
 		return v.I == w.I
 	case 's':
 		return v.S == w.S
+	case 'd':
+		if len(v.D) != len(w.D) {
+			return false
+		}
+		for k, x := range v.D {
+			if y, ok := w.D[k]; !ok || x != y {
+				return false
+			}
+		}
+		return true
 	}
 	if len(v.A) != len(w.A) {
 		return false
@@ -636,6 +685,48 @@ func (ev *evaluator) expr(e *Expr) (Val, error) {
 			return Val{}, errInvalid
 		}
 		return callee.expr(fn.Body)
+	case "dict":
+		if len(e.Keys) != len(e.Arr) {
+			return Val{}, errInvalid
+		}
+		ev.nextID++
+		out := Val{K: 'd', D: map[string]int64{}, id: ev.nextID}
+		for i, k := range e.Keys {
+			v, err := ev.expr(e.Arr[i])
+			if err != nil {
+				return Val{}, err
+			}
+			if v.K != 'i' {
+				return Val{}, errInvalid
+			}
+			out.D[k] = v.I
+		}
+		return out, nil
+	case "dset":
+		cur, ok := ev.env[e.Name]
+		if !ok || cur.K != 'd' || cur.id == 0 {
+			return Val{}, errInvalid
+		}
+		x, err := ev.expr(e.R)
+		if err != nil {
+			return Val{}, err
+		}
+		if x.K != 'i' {
+			return Val{}, errInvalid
+		}
+		grown := map[string]int64{}
+		for k, v := range cur.D {
+			grown[k] = v
+		}
+		grown[e.Op] = x.I
+		for k, w := range ev.env { // every name of this dict object sees the entry
+			if w.K == 'd' && w.id == cur.id {
+				w.D = grown
+				ev.env[k] = w
+			}
+		}
+		ev.pushes++
+		return x, nil // an assignment through an attribute yields the assigned value
 	case "push":
 		cur, ok := ev.env[e.Name]
 		if !ok || cur.K != 'a' || cur.id == 0 {
@@ -697,6 +788,8 @@ func truthy(v Val) bool {
 		return v.I != 0
 	case 's':
 		return v.S != ""
+	case 'd':
+		return len(v.D) > 0
 	}
 	return len(v.A) > 0
 }
@@ -998,7 +1091,29 @@ func (g *gen) arrExpr() *Expr {
 	return e
 }
 
+func (g *gen) dictExpr() *Expr {
+	g.budget--
+	vars := g.definedOf(dictVars)
+	if len(vars) > 0 && rapid.IntRange(0, 2).Draw(g.t, "dset") == 0 {
+		// in-place entry: later holes that show the dict show the new entry, a hole that has ended keeps its text
+		return &Expr{K: "dset", Name: rapid.SampledFrom(vars).Draw(g.t, "dsetVar"), Op: rapid.SampledFrom(dictKeys).Draw(g.t, "dsetKey"), R: g.intExpr(1), Sp: g.sp()}
+	}
+	if len(vars) > 0 && rapid.IntRange(0, 2).Draw(g.t, "dk") == 0 {
+		return &Expr{K: "var", Name: rapid.SampledFrom(vars).Draw(g.t, "dvar")}
+	}
+	e := &Expr{K: "dict", Sp: rapid.SampledFrom([]string{"", " "}).Draw(g.t, "dsp")}
+	n := rapid.IntRange(0, 3).Draw(g.t, "dlen")
+	for i := 0; i < n; i++ {
+		e.Keys = append(e.Keys, dictKeys[i])
+		e.Arr = append(e.Arr, g.intExpr(1))
+	}
+	return e
+}
+
 func (g *gen) valueExpr(depth int) *Expr {
+	if rapid.IntRange(0, 7).Draw(g.t, "vdict") == 0 {
+		return g.dictExpr()
+	}
 	switch rapid.IntRange(0, 6).Draw(g.t, "vt") {
 	case 0, 1, 2:
 		return g.intExpr(depth)
@@ -1022,6 +1137,13 @@ func (g *gen) assign(depth int) *Expr {
 	default:
 		name = rapid.SampledFrom(arrVars).Draw(g.t, "aname")
 		rhs = g.arrExpr()
+	}
+	if rapid.IntRange(0, 7).Draw(g.t, "adict") == 0 {
+		name = rapid.SampledFrom(dictVars).Draw(g.t, "dname")
+		rhs = g.dictExpr()
+		if rhs.K == "dset" {
+			rhs = &Expr{K: "dict", Keys: []string{"a"}, Arr: []*Expr{g.intExpr(1)}}
+		}
 	}
 	g.defined[name] = true
 	return &Expr{K: "asg", Name: name, R: rhs, Sp: g.sp()}
